@@ -98,6 +98,15 @@ _clean_depth = [0]
 _clean = []
 
 
+def min_space_of(sd, ni, op):
+    """the space whose minimal trap spaces the operation asks the solver for (None: it asks for none)"""
+    if op[0] in ("min", "skipmin"):
+        return dict(sd.node_data(op[1] % len(sd))["space"])
+    if op[0] in ("skiprem", "aseeds"):
+        return dict(sd.node_data(0)["space"])
+    return None
+
+
 def aseeds_cmd(ni, root, sz):
     mins = [ni.sp(root | x) for x in _min_record[0]] if _min_record else []
     return f"ASEEDS {fmt(sz)} " + " ".join(mins) + " ; " + " ".join("1" if b else "0" for b in _found)
@@ -478,8 +487,13 @@ def run_plain_history(case, judge_leaves=False, literal=True):
         if op[0] == "pickle":
             sd = pickle.loads(pickle.dumps(sd))
         nbefore = len(sd)
+        min_sp = min_space_of(sd, ni, op)
         ret, cmd = apply_op(sd, ni, op)
         _fail_at[0] = None
+        if min_sp is not None and _min_record and ret != "inj":
+            # the answer of the `min` solver that the model replays must be the complete list
+            lines.append(f"MIN {ni.sp(min_sp)}")
+            expect.append(("minset", " ".join(sorted(ni.sp(min_sp | x) for x in _min_record[0])), f"op{k}:{op[0]}"))
         d = common.dump_sd(sd, ni)
         tags.add("op:" + op[0])
         if ret == "err":
@@ -554,6 +568,9 @@ def run_plain_history(case, judge_leaves=False, literal=True):
             if rep != exp[1]:
                 diffs.append({"stream": "OBS literal diagram state", "at": exp[2], "impl": exp[1][:400], "model": rep[:400]})
                 diverged = True
+        elif kind == "minset":
+            if rep != exp[1]:
+                diffs.append({"stream": "ORACLE answer of the minimal-trap-space solver vs Lean minTrapsIn", "at": exp[2], "impl": exp[1][:300], "model": rep[:300]})
         elif kind == "judge":
             if rep != "OK":
                 fails.append({"kind": "invariant", "sig": {"what": rep.split(":")[0][:60]}, "detail": f"{exp[2]}: {rep}",
